@@ -2,8 +2,9 @@
 // from the BACK, so the returned suspend point carries them in REVERSE of the order in which they were made ready.  A discarded
 // suspend point (suspend_now) re-queues / resumes its handles in stored order, i.e. the coroutines run in reverse of the order they
 // were queued; co_await on it transfers to the LAST stored one = the FIRST made ready, then the others in reverse.
-//   g++ -std=c++20 -I/repo/src c05_create_sp_order.cpp -o t && ./t [discard|await|normal]
-// exit 0: resumed in the order they were made ready (A,B,C); exit 3: some other order (printed); exit 2: usage / wrong count.
+//   g++ -std=c++20 -I/repo/src c05_create_sp_order.cpp -o t && ./t [discard|await|normal|once]
+// exit 0: resumed in the order they were made ready (A,B,C); exit 3: some other order (printed); exit 2: not each exactly once; exit 4: ran early.
+// mode once = scenario of mode discard, but only "each exactly once, none early" is checked (any order gives exit 0).
 #include <cocls/future.h>
 #include <cocls/async.h>
 #include <cstdio>
@@ -30,6 +31,7 @@ int main(int argc, char **argv) {
     const char *mode = argc > 1 ? argv[1] : "discard";
     future<int> fa, fb, fc;
     auto pa = fa.get_promise(); auto pb = fb.get_promise(); auto pc = fc.get_promise();
+    bool once = !std::strcmp(mode, "once");
     if (!std::strcmp(mode, "normal")) {
         // no coroutine running: the waiters are parked first (each detach drains its own activation), then ordinary code resolves
         waiter(fa, 'A').detach(); waiter(fb, 'B').detach(); waiter(fc, 'C').detach();
@@ -43,6 +45,7 @@ int main(int argc, char **argv) {
         });
     }
     std::printf("mode %s: made ready in order ABC, resumed in order %s\n", mode, trace.c_str());
-    if (trace.size() != 3) return 2;
+    if (trace.size() != 3 || trace.find('A') == std::string::npos || trace.find('B') == std::string::npos || trace.find('C') == std::string::npos) return 2;
+    if (once) return 0;
     return trace == "ABC" ? 0 : 3;
 }
